@@ -18,6 +18,7 @@
 -/
 import KiraModel.Proofs.StreamLemmas
 import KiraModel.Proofs.StreamSeekLemmas
+import KiraModel.Proofs.StreamLoopLemmas
 import KiraModel.Proofs.GenAgreeSound
 
 namespace K
@@ -352,5 +353,238 @@ example : (exSeekSys { seekBy := some 0 }).cmds.seekBy = some 0 ∧ (exSeekSys {
     StreamIn exSeekWorld (fun p => p) (fun _ => True) (exSeekSys { seekBy := some 0 }) ∧
     seekIndex 4 ((exSeekSys { seekBy := some 0 }).sharedPosition + 0) ≤ exSeekWorld.frames.size :=
   ⟨rfl, rfl, exSeek_in _, by simp [exSeekSys, seekIndex_zero]⟩
+
+/-! ### `set_loop_region`, `seek_by` alone, seeks past the end, the drained point (lemmas in Proofs/StreamLoopLemmas.lean)
+
+  `run` reads its three slots in the order `set_loop_region`, `seek_by`, `seek_to`; each moves only the decoder
+  transport (and the decoder) and none flushes the ring.  Vocabulary: `loopSamples s r` = the requested region in frames
+  (`Region::to_samples` with the scheduler's sample rate and `num_frames`), `loopT s r` = `Transport::set_loop_region` of it
+  on the decoder transport; `LoopPending` / `SeekByPending` / `SeekEndPending` = `SeekPending` with `set_loop_region(r)` /
+  `seek_by(k)` / a `seek_to(x)` landing at or after the end written instead. -/
+
+/-- **`set_loop_region` re-establishes the ring invariant at the transport with the new region.** The decoder iteration
+    that finds the pending `set_loop_region(r)`: the world re-based at the decoder transport with its region replaced
+    (same position, still playing; region = what `validLoop` keeps of the request) is in-domain; afterwards the ring is
+    the frames buffered before — they were produced under the OLD region and are still played first — followed by the
+    first entry of the re-based walk (the source frame at the unchanged position), the decoder transport is one step into
+    that walk — a step taken under the NEW region — and no decoder command is pending (`SeekInv`). -/
+theorem C09_loop_region_reestablishes_ring_invariant {σ : Type} {W : World} (hW : W.Ok) {D : Decoder σ ℝ}
+    {pos : σ → Nat} {good : σ → Prop} (C : Dec.Contract D W.frames.toList pos good) {s : Sys σ ℝ} {a m : Nat}
+    {r : Option (Region ℝ)} (P : LoopPending W pos good s a m r) (fuel : Nat) (hfuel : W.frames.size < fuel)
+    (W' : World) (hW' : W' = W.rebase (loopT s r)) :
+    W'.Ok ∧ W'.t0.position = s.transport.position ∧
+    W'.t0.loopRegion = Transport.validLoop (loopSamples s r) ∧
+    SeekInv W' pos good (Sys.run D fuel s).2 s.ring.items 1 2 ∧
+    (Sys.run D fuel s).2.ring.items = s.ring.items ++ [⟨W.srcAt s.transport.position, s.transport.position⟩] ∧
+    (Sys.run D fuel s).2.cmds.setLoopRegion = none ∧
+    (s.ring.items = [] → RingInv W' pos good (Sys.run D fuel s).2 1 2) := by
+  subst hW'
+  obtain ⟨h1, h2, h3⟩ := loop_applied hW C P fuel hfuel
+  refine ⟨h1, rfl, rfl, h2, h3, h2.noSeek.1, fun he => ?_⟩
+  rw [he] at h2
+  exact h2.ringInv
+
+/-- **… and every later history without decoder commands keeps it**: after the iteration that applied
+    `set_loop_region(r)`, through non-seek commands, `pop_error`s, callbacks and decoder iterations at any pace, the
+    ring is what is left of the frames buffered under the old region followed by entries `a' … m' − 1` of the walk
+    under the new region, the decoder transport at step `m' − 1` of it; once the old frames are gone this is `RingInv`
+    of the re-based world. -/
+theorem C09_loop_region_then_ring_is_future {σ : Type} {W : World} (hW : W.Ok) {D : Decoder σ ℝ}
+    {pos : σ → Nat} {good : σ → Prop} (C : Dec.Contract D W.frames.toList pos good) {s : Sys σ ℝ} {a m : Nat}
+    {r : Option (Region ℝ)} (P : LoopPending W pos good s a m r) (fuel : Nat) (hfuel : W.frames.size < fuel)
+    (ops : List (Streaming.Op ℝ)) (hops : ∀ c, Streaming.Op.command c ∈ ops → AudioCmd c) {s' : Sys σ ℝ}
+    (outs : List (Frame ℝ)) (h : Sys.runOps D fuel (Sys.run D fuel s).2 ops = .ok (s', outs)) :
+    ∃ old' a' m', old'.length ≤ s.ring.items.length ∧ 1 ≤ a' ∧ 2 ≤ m' ∧
+      s'.ring.items = old' ++ (W.rebase (loopT s r)).ringSlice a' m' ∧
+      s'.transport = (W.rebase (loopT s r)).trAt (m' - 1) ∧
+      (old' = [] → RingInv (W.rebase (loopT s r)) pos good s' a' m') := by
+  obtain ⟨h1, h2, _⟩ := loop_applied hW C P fuel hfuel
+  obtain ⟨old', a', m', l1, l2, l3, e1, e2, _, e3⟩ :=
+    C09_seek_then_ring_is_future h1 (W' := W.rebase (loopT s r)) C fuel hfuel ops hops h2 outs h
+  exact ⟨old', a', m', l1, l2, l3, e1, e2, e3⟩
+
+/-- **`set_loop_region` does to the decoder transport what the static sound's handler does to its own.** In closed form:
+    position and `playing` untouched, region := what `validLoop` keeps of the request converted with the sound's sample rate
+    and frame count (never an empty / inverted one — the fact C04's `C04_transport_loop_never_degenerate` states, from `loopOk_of_validLoop`), slot emptied, ring and decoder
+    untouched; and a static sound with the same transport, sample rate and frame count answers the same command
+    (`StaticSound.setLoopRegion`, never a fault) with the same transport. -/
+theorem C09_loop_region_like_static_transport {σ : Type} (s : Sys σ ℝ) (r : Option (Region ℝ))
+    (h : s.cmds.setLoopRegion = some r) (st : StaticSound ℝ) (ht : st.transport = s.transport)
+    (hsr : st.sampleRate = s.sampleRate) (hn : numFrames st.frames.size st.slice = .ok s.cfg.numFrames) :
+    (Sys.readLoopCmd s).transport =
+      { s.transport with loopRegion := Transport.validLoop (loopSamples s r) } ∧
+    (∀ ls le, (Sys.readLoopCmd s).transport.loopRegion = some (ls, le) → ls < le) ∧
+    (Sys.readLoopCmd s).cmds.setLoopRegion = none ∧ (Sys.readLoopCmd s).ring = s.ring ∧
+    (Sys.readLoopCmd s).ds = s.ds ∧
+    ∃ st', StaticSound.setLoopRegion r st = .ok st' ∧ st'.transport = (Sys.readLoopCmd s).transport := by
+  have e : Sys.readLoopCmd s =
+      { s with cmds := { s.cmds with setLoopRegion := none }, transport := loopT s r } := by
+    unfold Sys.readLoopCmd; simp only [h]; rfl
+  rw [e]
+  refine ⟨rfl, fun ls le hl => ?_, rfl, rfl, rfl, static_setLoopRegion_transport s st r ht hsr hn⟩
+  have hl' : Transport.validLoop (loopSamples s r) = some (ls, le) := hl
+  have := Transport.loopOk_of_validLoop (loopSamples s r) 0 true
+  unfold Transport.LoopOk at this
+  simp only [hl'] at this
+  exact this
+
+/-- **A pending `seek_by` alone re-establishes the ring invariant** exactly as a `seek_to` does
+    (`C09_seek_reestablishes_ring_invariant`), the landing computed from `shared.position() + k` (the position the audio
+    thread last published); every later history keeps it by `C09_seek_then_ring_is_future`. -/
+theorem C09_seek_by_reestablishes_ring_invariant {σ : Type} {W : World} (hW : W.Ok) {D : Decoder σ ℝ} {pos : σ → Nat}
+    {good : σ → Prop} (C : Dec.Contract D W.frames.toList pos good) {s : Sys σ ℝ} {a m : Nat} {k : ℝ}
+    (P : SeekByPending W pos good s a m k) (fuel : Nat) (hfuel : W.frames.size < fuel)
+    (W' : World) (hW' : W' = W.rebase (landT s.transport (seekIndex s.sampleRate (s.sharedPosition + k)))) :
+    W'.Ok ∧ W'.t0.position = seekLands s.transport (seekIndex s.sampleRate (s.sharedPosition + k)) ∧
+    W'.t0.loopRegion = s.transport.loopRegion ∧
+    SeekInv W' pos good (Sys.run D fuel s).2 s.ring.items 1 2 ∧
+    (Sys.run D fuel s).2.ring.items = s.ring.items ++ [⟨W.srcAt W'.t0.position, W'.t0.position⟩] ∧
+    (Sys.run D fuel s).2.cmds.seekBy = none ∧
+    (s.ring.items = [] → RingInv W' pos good (Sys.run D fuel s).2 1 2) := by
+  subst hW'
+  obtain ⟨h1, h2, h3⟩ := seekBy_applied hW C P fuel hfuel
+  refine ⟨h1, rfl, rfl, h2, h3, h2.noSeek.2.1, fun he => ?_⟩
+  rw [he] at h2
+  exact h2.ringInv
+
+/-- **A seek landing at or after the end: the decoder reaches the end at once.** The iteration that applies such a
+    `seek_to(x)` (index inside the decoder's audio, landing ≥ `num_frames` — no loop region, or the target beyond it):
+    the transport stops AT the landing position, the decoder still pushes exactly ONE more frame — silence, stamped with
+    the landing position — behind the frames buffered before the seek (which are not flushed), sets `reached_end`, and
+    the iteration answers `End`: the decoder thread finishes; life-cycle state and error flag untouched, slot emptied. -/
+theorem C09_seek_past_end_decoder_ends {σ : Type} {W : World} (hW : W.Ok) {D : Decoder σ ℝ} {pos : σ → Nat}
+    {good : σ → Prop} (C : Dec.Contract D W.frames.toList pos good) {s : Sys σ ℝ} {a m : Nat} {x : ℝ}
+    (P : SeekEndPending W pos good s a m x) (fuel : Nat) (hfuel : W.frames.size < fuel) :
+    (Sys.run D fuel s).1 = .ok .end ∧ (Sys.run D fuel s).2.reachedEnd = true ∧
+    (Sys.run D fuel s).2.ring.items =
+      s.ring.items ++ [⟨Frame.zero, seekLands s.transport (seekIndex s.sampleRate x)⟩] ∧
+    (Sys.run D fuel s).2.ring.items.length = s.ring.items.length + 1 ∧
+    (Sys.run D fuel s).2.transport.playing = false ∧
+    (Sys.run D fuel s).2.transport.position = seekLands s.transport (seekIndex s.sampleRate x) ∧
+    (Sys.run D fuel s).2.cmds.seekTo = none ∧ (Sys.run D fuel s).2.core = s.core ∧
+    (Sys.run D fuel s).2.encounteredError = s.encounteredError := by
+  obtain ⟨h1, h2, h3, h4, h5, h6, h7, h8⟩ := seek_end_applied hW C P fuel hfuel
+  refine ⟨h1, h2, h3, ?_, h4, h5, h6, h7, h8⟩
+  rw [h3]; simp
+
+/-- **… the same for a `seek_by` landing at or after the end** (target `shared.position() + k`). -/
+theorem C09_seek_by_past_end_decoder_ends {σ : Type} {W : World} (hW : W.Ok) {D : Decoder σ ℝ} {pos : σ → Nat}
+    {good : σ → Prop} (C : Dec.Contract D W.frames.toList pos good) {s : Sys σ ℝ} {a m : Nat} {k : ℝ}
+    (P : SeekByEndPending W pos good s a m k) (fuel : Nat) (hfuel : W.frames.size < fuel) :
+    (Sys.run D fuel s).1 = .ok .end ∧ (Sys.run D fuel s).2.reachedEnd = true ∧
+    (Sys.run D fuel s).2.ring.items =
+      s.ring.items ++ [⟨Frame.zero, seekLands s.transport (seekIndex s.sampleRate (s.sharedPosition + k))⟩] ∧
+    (Sys.run D fuel s).2.transport.playing = false ∧
+    (Sys.run D fuel s).2.transport.position = seekLands s.transport (seekIndex s.sampleRate (s.sharedPosition + k)) ∧
+    (Sys.run D fuel s).2.cmds.seekBy = none ∧ (Sys.run D fuel s).2.core = s.core ∧
+    (Sys.run D fuel s).2.encounteredError = s.encounteredError :=
+  seekBy_end_applied hW C P fuel hfuel
+
+/-- **… and the sound stops exactly when the buffered frames are used up** (`_partial`: one output frame at a time).
+    With `reached_end` set (nothing is pushed any more: a `decode` step of such a sound changes nothing), an output frame
+    whose position step pops `j = ⌊frac + step⌋` ring entries leaves the ring `j` entries shorter, and the sound is marked
+    stopped in this very frame iff `j ≥` the entries left — so, counting from the seek, at the first output frame at
+    which the position steps add up to (frames buffered before the seek) + 1; until then it keeps playing the pre-seek
+    frames.  Full statement not proved as one theorem: `∀` history after `C09_seek_past_end_decoder_ends`, `handle.state()`
+    is `Stopped` after exactly the callback in which the `(L+1)`-th pop attempt happens (induction of this theorem over
+    `render_loop` / `process`). -/
+theorem C09_seek_past_end_sound_stops_partial {σ : Type} (fuel : Nat) (s : Sys σ ℝ) (t dt : ℝ)
+    (hre : s.reachedEnd = true) (h0 : 0 ≤ s.frac + s.fracStep t dt) (hf : ⌊s.frac + s.fracStep t dt⌋₊ < fuel)
+    (D : Decoder σ ℝ) :
+    (∃ s' out, s.renderFrame fuel t dt = .ok (s', out) ∧
+      s'.ring.items = s.ring.items.drop ⌊s.frac + s.fracStep t dt⌋₊ ∧
+      s'.ring.items.length = s.ring.items.length - ⌊s.frac + s.fracStep t dt⌋₊ ∧ s'.reachedEnd = true ∧
+      s'.core = (if s.ring.items.length ≤ ⌊s.frac + s.fracStep t dt⌋₊ then s.core.markStopped else s.core)) ∧
+    Sys.step D fuel s .decode = .ok (s, []) := by
+  obtain ⟨s', out, h1, h2, h3, h4⟩ := renderFrame_drain fuel s t dt hre h0 hf
+  refine ⟨⟨s', out, h1, h2, by rw [h2]; simp, h3, h4⟩, ?_⟩
+  simp [Sys.step, hre]
+
+/-- **… over a whole render loop: stopped iff the buffered frames are used up.** For a sound whose decoder has set
+    `reached_end` (e.g. by `C09_seek_past_end_decoder_ends`: ring = `L` pre-seek frames + 1), ANY `k ≥ 1` output frames of
+    `process`'s render loop that do not fault (no premise on rate or pace): the ring is the old one minus the `j` entries
+    popped so far, `reached_end` stays, and the life-cycle core is `mark_as_stopped` of the old one iff the ring is empty
+    afterwards — untouched otherwise.  With the per-frame pop count `j = ⌊frac + step⌋` of
+    `C09_seek_past_end_sound_stops_partial`: the sound stops in the output frame at which the pops reach `L + 1`. -/
+theorem C09_seek_past_end_render_loop_stops {σ : Type} (fuel : Nat) (dt : ℝ) (len k i : Nat) (s s' : Sys σ ℝ)
+    (outs : List (Frame ℝ)) (hk : 1 ≤ k) (hre : s.reachedEnd = true)
+    (h : Sys.renderLoop fuel dt len k i s = .ok (s', outs)) :
+    ∃ j, s'.ring.items = s.ring.items.drop j ∧ s'.reachedEnd = true ∧
+      s'.core = (if s'.ring.items = [] then s.core.markStopped else s.core) := by
+  obtain ⟨_, j, h1, h2, h3⟩ := renderLoop_drain fuel dt len k i s s' outs hre h
+  refine ⟨j, h1, h2, ?_⟩
+  rw [h3]
+  have : k ≠ 0 := by omega
+  simp [this]
+
+/-- **The drained point: from there the bisimulation theorems apply to the re-based world.** Once the frames buffered
+    before a seek / loop-region change are used up (`SeekInv … [] a m`) and the audio side is healthy (fraction in
+    `[0, 1)`, handle state in sync, no decoder error, "end reached and ring empty ⇒ already stopped"), the streaming
+    sound is `Bisim`-related — for the world whose walk starts at the landing transport — to the static sound that
+    plays the same audio, stands at step `a + 3` of that walk (window = entries `a … a + 3` of it) and has the same
+    fraction, parameters, life-cycle state and commands.  So `C09_bisimulation_frame` / `_process` hold from this state:
+    every output frame equals that static sound's (which, `a ≥ 1`, holds source frames from the landing position on only). -/
+theorem C09_seek_drained_bisimulation {σ : Type} {W' : World} (hW : W'.Ok) {pos : σ → Nat} {good : σ → Prop}
+    {s : Sys σ ℝ} {a m : Nat} (S : SeekInv W' pos good s [] a m) (A : AudioSideOk s a m) :
+    ∃ st, StaticAt W' st (a + 3) ∧ Bisim W' pos good st s a m ∧
+      ∀ (t dt : ℝ) (fuel : Nat), FrameOk s t dt fuel →
+        ∃ st' s' out, st.renderFrame fuel t dt = .ok (st', out) ∧ s.renderFrame fuel t dt = .ok (s', out) ∧
+          Bisim W' pos good st' s' (a + ⌊s.frac + s.fracStep t dt⌋₊) m :=
+  ⟨staticTwin W' s (a + 3), staticTwin_at W' s (a + 3), S.bisim A,
+    fun t dt fuel F => C09_bisimulation_frame hW (S.bisim A) t dt fuel F⟩
+
+/-! non-vacuity of the theorems above (witnesses in Proofs/StreamLoopLemmas.lean) -/
+
+/-- hypotheses of `C09_loop_region_reestablishes_ring_invariant` / `C09_loop_region_then_ring_is_future` -/
+example : ∃ (W : World) (s : Sys Nat ℝ) (a m : Nat) (r : Option (Region ℝ)), W.Ok ∧
+    Dec.Contract (chunkDecoder W.frames.toList 2 4) W.frames.toList (fun p => p) (fun _ => True) ∧
+    LoopPending W (fun p => p) (fun _ => True) s a m r :=
+  ⟨exSeekWorld, _, 0, 1, none, exSeekWorld_ok, chunkDecoder_contract _ 2 4, exLoop_pending⟩
+
+/-- hypotheses of `C09_loop_region_like_static_transport` -/
+example : ∃ (s : Sys Nat ℝ) (r : Option (Region ℝ)) (st : StaticSound ℝ), s.cmds.setLoopRegion = some r ∧
+    st.transport = s.transport ∧ st.sampleRate = s.sampleRate ∧
+    numFrames st.frames.size st.slice = .ok s.cfg.numFrames :=
+  ⟨exSeekSys { setLoopRegion := some none }, none, staticTwin exSeekWorld (exSeekSys { setLoopRegion := some none }) 0,
+    rfl, rfl, rfl, rfl⟩
+
+/-- hypotheses of `C09_seek_by_reestablishes_ring_invariant` -/
+example : ∃ (W : World) (s : Sys Nat ℝ) (a m : Nat) (k : ℝ), W.Ok ∧
+    Dec.Contract (chunkDecoder W.frames.toList 2 4) W.frames.toList (fun p => p) (fun _ => True) ∧
+    SeekByPending W (fun p => p) (fun _ => True) s a m k :=
+  ⟨exSeekWorld, _, 0, 1, 0, exSeekWorld_ok, chunkDecoder_contract _ 2 4, exSeekBy_pending⟩
+
+/-- hypotheses of `C09_seek_past_end_decoder_ends` (`seek_to(3.0)` on a 3-frame, 1 Hz sound without a loop), and of
+    `C09_seek_past_end_sound_stops_partial` (the state that iteration leaves: `reached_end` set) -/
+example : ∃ (W : World) (s : Sys Nat ℝ) (a m : Nat) (x : ℝ), W.Ok ∧
+    Dec.Contract (chunkDecoder W.frames.toList 2 4) W.frames.toList (fun p => p) (fun _ => True) ∧
+    SeekEndPending W (fun p => p) (fun _ => True) s a m x ∧
+    (Sys.run (chunkDecoder W.frames.toList 2 4) 4 s).2.reachedEnd = true :=
+  ⟨exEndWorld, _, 0, 1, 3, exEndWorld_ok, chunkDecoder_contract _ 2 4, exSeekEnd_pending,
+    (C09_seek_past_end_decoder_ends exEndWorld_ok (chunkDecoder_contract _ 2 4) exSeekEnd_pending 4
+      (by simp [exEndWorld])).2.1⟩
+
+/-- hypotheses of `C09_seek_by_past_end_decoder_ends` -/
+example : ∃ (W : World) (s : Sys Nat ℝ) (a m : Nat) (k : ℝ), W.Ok ∧
+    Dec.Contract (chunkDecoder W.frames.toList 2 4) W.frames.toList (fun p => p) (fun _ => True) ∧
+    SeekByEndPending W (fun p => p) (fun _ => True) s a m k :=
+  ⟨exEndWorld, _, 0, 1, 3, exEndWorld_ok, chunkDecoder_contract _ 2 4, exSeekByEnd_pending⟩
+
+/-- hypotheses of `C09_seek_past_end_render_loop_stops`: a sound with `reached_end` set whose render loop (one frame,
+    `dt = 0`) does not fault -/
+example : ∃ (s s' : Sys Nat ℝ) (outs : List (Frame ℝ)), s.reachedEnd = true ∧
+    Sys.renderLoop 4 0 1 1 0 s = .ok (s', outs) := by
+  let s : Sys Nat ℝ := { exDrySys with reachedEnd := true }
+  have hz : s.frac + s.fracStep ((KOps.ofNat (0 + 1) : ℝ) / (KOps.ofNat 1 : ℝ)) 0 = 0 := by
+    simp [s, Sys.fracStep, exDrySys, exSeekSys]
+  obtain ⟨s', out, h, _⟩ := renderFrame_drain 4 s _ 0 rfl (by rw [hz]) (by rw [hz]; simp)
+  refine ⟨s, s', [out], rfl, ?_⟩
+  rw [Sys.renderLoop, h]
+  simp [Sys.renderLoop]
+
+/-- hypotheses of `C09_seek_drained_bisimulation` -/
+example : ∃ (W' : World) (s : Sys Nat ℝ) (a m : Nat), W'.Ok ∧ SeekInv W' (fun p => p) (fun _ => True) s [] a m ∧
+    AudioSideOk s a m :=
+  ⟨exSeekWorld, exDrySys, 1, 1, exSeekWorld_ok, exDry_seekInv, exDry_audio⟩
 
 end K
